@@ -24,7 +24,7 @@ from typing_extensions import Self, TypeAlias
 
 from .errors import ConvertError, UnsupportedAnnotation
 from .addons import numpy as numpy
-from .util import key_cache
+from .util import key_cache, replace_typevars
 
 if t.TYPE_CHECKING:
     from .converters import Converter
@@ -291,6 +291,14 @@ def make_converter(ty: IntoConverter, handlers: ConverterHandlers = ConverterHan
             raise TypeError(f"No converter for abstract type '{ty}'")
         # (written as what the path says it is: `os.fspath` is `str` for pathlib's paths)
         return ScalarConverter(new_base, (str, os.PathLike), 'a path', 'paths', os.fspath)  # type: ignore
+
+    # named tuple: one converter per field (a class made by `typing.NamedTuple` or `collections.namedtuple`
+    # takes its fields as separate arguments, not as one iterable like `tuple` does)
+    if issubclass(base, tuple) and hasattr(base, '_fields') and hasattr(base, '_make'):
+        hints = t.get_type_hints(base)
+        bound = dict(zip(getattr(base, '__parameters__', ()), args))
+        field_types = tuple(replace_typevars(hints.get(f, t.Any), bound) for f in base._fields)  # type: ignore
+        return TupleConverter(base._make, field_types, handlers=handlers)  # type: ignore
 
     # tuple converter
     if issubclass(base, (tuple, t.Tuple)):
